@@ -76,5 +76,16 @@ let dispatch (t : Stdlib.String.t array) : Stdlib.String.t =
       | Ok l -> "ok " ^ string_of_int (Stdlib.List.length l) ^ " " ^ (if l = [] then "-" else Stdlib.String.concat "," (Stdlib.List.map (fun x -> string_of_n x.rpu_crc) l))
       | Err -> "err"
       | Panic s -> "panic " ^ string_of_n s)
+  | "split" ->
+      (* the whole input split in one piece: NAL payloads as hex *)
+      let l = split_whole (bytes_of_hex t.(1)) in
+      "ok " ^ (if l = [] then "-" else Stdlib.String.concat "," (Stdlib.List.map (fun d -> if d = [] then "." else hex_of_bytes d) l))
+  | "splitc" ->
+      (* the chunked reader on a file read in full chunks: batches separated by | *)
+      let cs = int_of_string t.(1) in
+      let rec nat_of_int i acc = if i = 0 then acc else nat_of_int (i - 1) (S acc) in
+      let cs = nat_of_int cs O in
+      let bs = parse_nalus cs (read_file cs (bytes_of_hex t.(2))) in
+      "ok " ^ (if bs = [] then "-" else Stdlib.String.concat "|" (Stdlib.List.map (fun b -> if b = [] then "-" else Stdlib.String.concat "," (Stdlib.List.map (fun d -> if d = [] then "." else hex_of_bytes d) b)) bs))
   | _ -> failwith ("unknown op " ^ t.(0))
 
